@@ -17,7 +17,7 @@ from ..recorder import _self_attr
 from . import recmodel as rm
 
 
-def check_idle(res, clause, dom, owner, entry, fields, tl=True, what='exit'):
+def check_idle(res, clause, dom, owner, entry, fields, tl=True, what='exit', prop='C09'):
     roles = dom.roles
     groups = {}
     for n, s in dom.exits:
@@ -41,7 +41,7 @@ def check_idle(res, clause, dom, owner, entry, fields, tl=True, what='exit'):
         clause.instance('%s %s: recorder idle' % (entry, 'exit=' + ek), owner.qualname, g['ok'], detail='%d abstract states' % g['states'])
         if not g['ok']:
             n, s, bad = g['bad']
-            res.add(Finding('C09', clause.id, clause.kind, owner.file, owner.qualname, owner.node.lineno,
+            res.add(Finding(prop, clause.id, clause.kind, owner.file, owner.qualname, owner.node.lineno,
                             'exit=%s not idle: %s' % (ek, '; '.join(sorted(bad))),
                             'the recorder is not idle when %s is left by %s: %s' % (entry, ek, '; '.join(sorted(bad))),
                             witness=dom.path_to(n, s), entry=entry, exit=ek))
